@@ -26,7 +26,10 @@ class VirtualSgz:
         self.closed = False
 
     def seek(self, off, whence=0):
-        self._pos = off if whence == 0 else (self._pos + off if whence == 1 else self.size + off)
+        pos = off if whence == 0 else (self._pos + off if whence == 1 else self.size + off)
+        if pos < 0:
+            raise OSError(22, 'Invalid argument')       # as a real file does
+        self._pos = int(pos)
         return self._pos
 
     def tell(self):
